@@ -140,7 +140,7 @@ class Event(object):
 
 
 def unquote(word):
-    if len(word) == 0:
+    if len(word) < 2:
         return word
     if word[0] == '"' and word[-1] == '"':
         return word[1:-1]
